@@ -445,7 +445,7 @@ def run(ctx, config='rel-all'):
         fg = own_calls(r, 'mem::forget')
         vecp = ('app', 'proj', SELF, 'collections::string::String.vec')
         okv = r.ret is not None and r.ret[0] == 'agg' and r.ret[1] == 'slice' and field_of(r.ret, 'ptr') == ('app', 'proj', ('app', 'proj', vecp, 'collections::vec::Vec.buf'), 'collections::raw_vec::RawVec.ptr') \
-            and field_of(r.ret, 'len') == ('app', 'proj', vecp, 'collections::vec::Vec.len') and len(fg) == 1 and fg[0].args[0] == SELF
+            and field_of(r.ret, 'len') == ('app', 'proj', vecp, 'collections::vec::Vec.len') and ((len(fg) == 1 and fg[0].args[0] == SELF) or any(e.args and e.args[0] == SELF for e in own_calls(r, 'ManuallyDrop::<T>::new')))
         drops = [e for e in r.events if e.kind == 'drop' and e.is_own() and not b['blocks'][e.block].get('cleanup')]
         check('into_bump_str', 'returns the whole text (buf.ptr, len) and forgets the string: the buffer is never handed back to the arena', okv and not drops, '', b.get('span'))
     b = string_method(db, 'into_bytes')
